@@ -39,10 +39,12 @@ type globalsInfo struct {
 	specOf  map[string]*ast.ValueSpec
 	noReset map[string]bool   // set up by init functions or //go:embed: never re-initialised
 	embeds  map[string]string // variable -> its //go:embed directive line
+	called  map[string]bool   // receiver of a method call somewhere
+	taint   map[string]bool   // locals of the function being instrumented that alias a written variable
 }
 
 func collectGlobals(files []*ast.File) *globalsInfo {
-	g := &globalsInfo{vars: map[string]bool{}, written: map[string]bool{}, top: map[*ast.ValueSpec]bool{}, specOf: map[string]*ast.ValueSpec{}, noReset: map[string]bool{}, embeds: map[string]string{}}
+	g := &globalsInfo{vars: map[string]bool{}, written: map[string]bool{}, top: map[*ast.ValueSpec]bool{}, specOf: map[string]*ast.ValueSpec{}, noReset: map[string]bool{}, embeds: map[string]string{}, called: map[string]bool{}, taint: map[string]bool{}}
 	for _, f := range files {
 		for _, d := range f.Decls {
 			gd, ok := d.(*ast.GenDecl)
@@ -107,6 +109,12 @@ func collectGlobals(files []*ast.File) *globalsInfo {
 					return true
 				})
 			}
+		}
+	}
+	for n := range g.called {
+		if !g.written[n] {
+			g.written[n] = true
+			g.noReset[n] = true
 		}
 	}
 	return g
@@ -203,6 +211,14 @@ func (g *globalsInfo) findWrites(body ast.Node) {
 		case *ast.SliceExpr:
 			g.markWrite(x.X)
 		case *ast.CallExpr:
+			if se, ok := x.Fun.(*ast.SelectorExpr); ok {
+				// a method call on a package-level value may mutate it (a hoisted
+				// bytes.Buffer, a cache type): scheduling points, but the value is
+				// not re-initialised unless it is also written directly
+				if id := rootIdent(se.X); id != nil && g.isGlobal(id) {
+					g.called[id.Name] = true
+				}
+			}
 			if id, ok := x.Fun.(*ast.Ident); ok && (id.Name == "copy" || id.Name == "append" || id.Name == "clear" || id.Name == "delete") && id.Obj == nil && len(x.Args) > 0 {
 				g.markWrite(x.Args[0])
 			}
@@ -253,6 +269,8 @@ func (g *globalsInfo) mentions(n ast.Node) string {
 		case *ast.Ident:
 			if g.written[x.Name] && g.isGlobal(x) {
 				name = x.Name
+			} else if g.taint[x.Name] && x.Obj != nil && !g.isGlobal(x) {
+				name = x.Name + "(alias)"
 			}
 		}
 		return true
@@ -447,6 +465,65 @@ func (g *globalsInfo) funcLitsIn(n ast.Node) {
 	})
 }
 
+// aliases returns the local variables of body that are assigned an expression
+// rooted at a written package-level variable (x := &g, x := g[:], x = g.f,
+// for range g …): what they refer to may be the shared state itself, so their
+// mentions are scheduling points too (per function, flow-insensitive).
+func (g *globalsInfo) aliases(body ast.Node) map[string]bool {
+	t := map[string]bool{}
+	rooted := func(e ast.Expr) bool {
+		for {
+			switch x := e.(type) {
+			case *ast.UnaryExpr:
+				if x.Op != token.AND {
+					return false
+				}
+				e = x.X
+				continue
+			case *ast.ParenExpr:
+				e = x.X
+				continue
+			case *ast.TypeAssertExpr:
+				e = x.X
+				continue
+			}
+			break
+		}
+		id := rootIdent(e)
+		return id != nil && ((g.written[id.Name] && g.isGlobal(id)) || (t[id.Name] && id.Obj != nil && !g.isGlobal(id)))
+	}
+	for pass := 0; pass < 2; pass++ {
+		ast.Inspect(body, func(n ast.Node) bool {
+			switch x := n.(type) {
+			case *ast.AssignStmt:
+				if len(x.Lhs) == len(x.Rhs) {
+					for i, r := range x.Rhs {
+						if id, ok := x.Lhs[i].(*ast.Ident); ok && id.Name != "_" && !g.isGlobal(id) && rooted(r) {
+							t[id.Name] = true
+						}
+					}
+				}
+			case *ast.ValueSpec:
+				if len(x.Names) == len(x.Values) {
+					for i, r := range x.Values {
+						if x.Names[i].Name != "_" && rooted(r) {
+							t[x.Names[i].Name] = true
+						}
+					}
+				}
+			case *ast.RangeStmt:
+				if rooted(x.X) {
+					if id, ok := x.Value.(*ast.Ident); ok && id.Name != "_" {
+						t[id.Name] = true
+					}
+				}
+			}
+			return true
+		})
+	}
+	return t
+}
+
 // instrumentFile inserts the scheduling points.
 func (g *globalsInfo) instrumentFile(f *ast.File) {
 	for _, d := range f.Decls {
@@ -455,7 +532,9 @@ func (g *globalsInfo) instrumentFile(f *ast.File) {
 			if x.Body == nil || (x.Recv == nil && x.Name.Name == "init") {
 				continue
 			}
+			g.taint = g.aliases(x.Body)
 			x.Body.List = g.instrumentList(x.Body.List)
+			g.taint = map[string]bool{}
 		case *ast.GenDecl:
 			if x.Tok != token.VAR {
 				continue
